@@ -7,6 +7,7 @@ package main
 import (
 	"bytes"
 	"encoding/csv"
+	"encoding/hex"
 	"encoding/json"
 	"fmt"
 	"io"
@@ -31,11 +32,38 @@ type c19Job struct {
 	Status int    `json:"status,omitempty"`
 }
 
+// hexRows carries byte strings through JSON unchanged (encoding/json would replace bytes that are not valid UTF-8 by U+FFFD).
+type hexRows []string
+
+func (h hexRows) MarshalJSON() ([]byte, error) {
+	out := make([]string, len(h))
+	for i, r := range h {
+		out[i] = hex.EncodeToString([]byte(r))
+	}
+	return json.Marshal(out)
+}
+
+func (h *hexRows) UnmarshalJSON(data []byte) error {
+	var in []string
+	if err := json.Unmarshal(data, &in); err != nil {
+		return err
+	}
+	*h = make(hexRows, len(in))
+	for i, r := range in {
+		b, err := hex.DecodeString(r)
+		if err != nil {
+			return err
+		}
+		(*h)[i] = string(b)
+	}
+	return nil
+}
+
 type c19Result struct {
-	Rows       []string `json:"rows"`
-	Closed     bool     `json:"closed"`
-	Err        string   `json:"err,omitempty"`
-	Goroutines int      `json:"library_goroutines_left"`
+	Rows       hexRows `json:"rows_hex"`
+	Closed     bool    `json:"closed"`
+	Err        string  `json:"err,omitempty"`
+	Goroutines int     `json:"library_goroutines_left"`
 }
 
 type typed3 struct {
